@@ -214,7 +214,15 @@ FUNCS = {
     # the no-retry model ([ckd_priv_ecdsa_current]) against the code as it stands: ties the refuted variant
     # to the implementation (private side only; the public side of the present code is back-end dependent)
     "seed_path_current": Func(model=model_seed_path(1), impl=impl_seed_path),
+    # the no-retry model on the published retry vector reproduces the keys recorded for finding F1 (compared
+    # with the record, not with the implementation, so that it stays true once the code is repaired)
+    "current_model_f1": Func(model=lambda m, a: _priv_pub(m.call("slip10_seed_path", 1, 1, FUEL, [], F1_SEED, 1, F1_PATH)),
+                             impl=lambda a: [bytes.fromhex(F1_OBSERVED_PRIV), bytes.fromhex(F1_OBSERVED_PUB)]),
 }
+
+
+def _priv_pub(r):
+    return r if r[0] == "err" else ("ok", [r[1][0][0], r[1][1]])
 
 
 # ------------------------------------------------------------------ known finding F1
@@ -222,6 +230,8 @@ FUNCS = {
 F1_SEED = bytes(range(16))
 F1_PATH = [28578 + HARD, 33941]
 F1_EXPECTED = "092154eed4af83e078ff9b84322015aefe5769e31270f62c3f66c33888335f3a"
+F1_OBSERVED_PRIV = "06f0db13004eab79c1b859e964e0db9450fb7413b5e7893d9a03a6a69c2f77a0"
+F1_OBSERVED_PUB = "02e5529829b36a2694c33ab83ccb2c011ef985e1c7bae2b30e93625e9bf95855ae"
 
 
 def _walk_needs_retry(curve, x, path, hm):
@@ -398,7 +408,7 @@ def generate(ctx):
     # -- the published SLIP-0010 retry vector, privately and publicly, and the no-retry model on it
     ctx.run("seed_path", [1, F1_SEED, 1, F1_PATH], "slip10-retry-vector")
     ctx.run("seed_child_keys", [1, F1_SEED, F1_PATH], "slip10-retry-vector")
-    ctx.run("seed_path_current", [1, F1_SEED, 1, F1_PATH], "slip10-retry-vector")
+    ctx.run("current_model_f1", [], "slip10-retry-vector")
     par = R.derive(1, F1_SEED, F1_PATH[:1])
     ctx.run("priv_path", [1, [], par.priv, par.depth, par.index, par.chain, par.pfp, 1, 0, 0, F1_PATH[1:]],
             "slip10-retry-vector/pub")
